@@ -16,7 +16,7 @@ def derive_seed(base, label, index):
 
 
 class Choices:
-    __slots__ = ("rng", "rec", "pos", "log", "seed")
+    __slots__ = ("rng", "rec", "pos", "log", "seed", "tags")
 
     def __init__(self, seed=None, recorded=None):
         self.seed = seed
@@ -24,6 +24,7 @@ class Choices:
         self.rec = list(recorded) if recorded is not None else None
         self.pos = 0
         self.log = []
+        self.tags = []       # tag of every logged draw (used by the minimiser to shrink scenario sizes first)
 
     def draw(self, n, tag=""):
         """integer in [0, n); n <= 1 consumes nothing"""
@@ -36,6 +37,7 @@ class Choices:
         else:
             v = self.rng.randrange(n)
         self.log.append(v)
+        self.tags.append(tag)
         return v
 
     def chance(self, num, den, tag=""):
